@@ -7,6 +7,8 @@ import (
 	"fmt"
 	"io"
 	"os"
+	"strconv"
+	"strings"
 	"syscall"
 	"testing"
 
@@ -156,6 +158,12 @@ func build(ds []Dest, outcomes [][]int, leaves *[]*leaf, filters *[][]int, path 
 				ws = append(ws, zerolog.SyncWriter(levelLeaf{lf}))
 			case "adapter":
 				ws = append(ws, zerolog.LevelWriterAdapter{Writer: plainLeaf{lf}})
+			case "logger":
+				// another Logger as a destination (Logger is an io.Writer): it logs the line as the message
+				// of an event of its own and must report the whole input as written; its own destination
+				// always succeeds here (a failure there would be the inner logger's event, not this one's)
+				lf.outcomes = nil
+				ws = append(ws, zerolog.New(levelLeaf{lf}))
 			default:
 				panic("c14: destination kind " + d.Kind)
 			}
@@ -281,7 +289,11 @@ func run(c *Case) (msg string, nontrivial bool) {
 			if lf.kind == "plain" || lf.kind == "sync-plain" || lf.kind == "adapter" || c.Direct {
 				lvl = -100
 			}
-			want[li] = append(want[li], got{lvl, line})
+			if lf.kind == "logger" {
+				want[li] = append(want[li], got{6, "{\"message\":" + strconv.Quote(strings.TrimSuffix(line, "\n")) + "}\n"})
+			} else {
+				want[li] = append(want[li], got{lvl, line})
+			}
 			o := 0
 			if calls[li] < len(lf.outcomes) {
 				o = lf.outcomes[calls[li]]
@@ -423,7 +435,7 @@ func pow(b, e int) int {
 func genDests(rt *rapid.T, n, depth int, label string) []Dest {
 	var ds []Dest
 	for i := 0; i < n; i++ {
-		kinds := []string{"plain", "level", "filtered", "filtered", "sync-plain", "sync-level", "adapter"}
+		kinds := []string{"plain", "level", "filtered", "filtered", "sync-plain", "sync-level", "adapter", "logger"}
 		if depth > 0 {
 			kinds = append(kinds, "multi")
 		}
